@@ -22,6 +22,7 @@ ASSUMPTIONS = [
     "the areas themselves are judged by C05; here only the weighting, the dims/name/grid plumbing and the rejection rule",
     "the face dimension is the last dimension, named n_face; node/edge data are recognised by their dimension name",
     "values are small dyadic rationals; float64 results compared at 1e-12 relative, float32 at 1e-5",
+    "the absolute (spherical-excess) value of an integral is asserted for the default rule and the two highest orders only, with C05's tolerances; other orders are compared with compute_face_areas of the same rule and order",
 ]
 BUDGET = {
     "quick": dict(shards=4, examples=200),
@@ -170,8 +171,11 @@ def run_case(case, ctx):
         mask[fi] = 1.0
         a_f = S.poly_area(vs)
         ex += a_f
-        tl += (t if order >= 4 else 0.2) * a_f
-    if mask.any():
+        tl += t * a_f
+    # the statement bounds the accuracy of the default rule and of the limit of rising order only (C05): no absolute
+    # accuracy is asserted at other orders (a 65-degree triangle is off by 21% at triangular order 1)
+    judged = (rule, order) in (("triangular", 4), ("triangular", 12), ("gaussian", 10))
+    if mask.any() and judged:
         ctx.ev("total_is_spherical_area")
         part = float(ux.UxDataArray(mask, dims=["n_face"], uxgrid=g, name="m").integrate(rule, order).values)
         if abs(part - ex) > tl + 1e-12:
